@@ -466,6 +466,13 @@ impl Decoder {
                 }
             };
 
+            if wrapped_key.len() != 32 {
+                err!(format!(
+                    "UE and OE in Encrypt dictionary should have a length of 32 bytes, not {}",
+                    wrapped_key.len(),
+                )
+                .into());
+            }
             let zero_iv = GenericArray::from_slice(&[0u8; 16]);
             let key_slice = t!(Aes256CbcDec::new(&intermediate_key, zero_iv)
                 .decrypt_padded_mut::<NoPadding>(&mut wrapped_key)
